@@ -175,6 +175,8 @@ HTREES = [
     # same shape as the full product, differing under the first / the last outer label only
     (('a', 1), ('a', 3), ('b', 1), ('b', 2)), (('a', 1), ('a', 2), ('b', 1), ('b', 3)), (('a', 1), ('a', 2), ('c', 1), ('c', 2)),
 ]
+# levels of one kind (all int): set operations take the NumPy row path
+HTREES_INT = [((1, 1), (1, 2), (2, 1)), ((2, 1), (1, 2), (1, 1)), ((1, 2), (3, 1)), ((1, 1),), ((2, 1), (2, 3))]
 
 
 def hier_index(tree, route):
@@ -191,8 +193,9 @@ def hier_index(tree, route):
 def run_setops_ih(case, ctx):
     pairs_ = [(t, r, hier_index(t, r)) for t in HTREES for r in ('labels', 'product')]
     pairs_ = [(t, r, i) for t, r, i in pairs_ if i is not None]
-    trees = HTREES
-    for (ta, ra, ia), (tb, rb, ib) in itertools.product(pairs_, repeat=2):
+    pairs_int = [(t, 'labels', hier_index(t, 'labels')) for t in HTREES_INT]
+    trees = HTREES + HTREES_INT
+    for (ta, ra, ia), (tb, rb, ib) in itertools.chain(itertools.product(pairs_, repeat=2), itertools.product(pairs_int, repeat=2)):
         ctx.state(('setih', ta, tb, ra, rb))
         if ta != tb:
             ctx.nontriv(('setih', ta, tb))
@@ -212,6 +215,19 @@ def run_setops_ih(case, ctx):
                 ctx.violation(f'ih.{name}|wrong-label-set', **info, got=got, expected=sorted(map(repr, exp)))
             elif ka == kb and name != 'difference' and got != ka:
                 ctx.violation(f'ih.{name}|identical-operands-reordered', **info, got=got, expected=ka)
+            # the other operand as a plain list / generator of tuples that repeats a label: still set algebra, each label once
+            if tb and ra == 'labels' and rb == 'labels':
+                rep_b = list(tb) + [tb[0]]
+                for form, mk in (('list-with-repeat', lambda: list(rep_b)), ('generator-with-repeat', lambda: (t for t in rep_b))):
+                    ctx.transition()
+                    try:
+                        r2 = getattr(ia, name)(mk())
+                    except Exception as e:
+                        ctx.violation(f'ih.{name}|{form}|raises|{type(e).__name__}', **info, error=repr(e))
+                        continue
+                    got2 = [lkey(tuple(x)) for x in r2] if len(r2) else []
+                    if len(got2) != len(set(got2)) or set(got2) != exp:
+                        ctx.violation(f'ih.{name}|{form}|wrong-label-set', **info, got=got2, expected=sorted(map(repr, exp)))
     ctx.outcome('setops_ih')
     ctx.sample({'family': 'setops_ih', 'trees': len(trees)}, limit=1)
 
